@@ -9,8 +9,8 @@ use serde_json::json;
 
 #[derive(Clone, Debug)]
 pub enum Case {
-    Compose { k: usize, f: TSpec, g: TSpec, layout: u8 },
-    Apply { f: TSpec, a: Aff },
+    Compose { k: usize, f: std::sync::Arc<TSpec>, g: std::sync::Arc<TSpec>, layout: u8 },
+    Apply { f: std::sync::Arc<TSpec>, a: Aff },
 }
 
 fn r1(a: &[f64], b: f64) -> Aff {
@@ -53,7 +53,7 @@ fn gens(n: usize, m: usize, o: usize, k: usize, tier: Tier) -> (TreeGen, TreeGen
         (Tier::Quick, 2) => (2, 5, 2, 5),
         (Tier::Quick, _) => (1, 4, 1, 4),
         (Tier::Thorough, 2) => (2, 7, 2, 7),
-        (Tier::Thorough, _) => (2, 6, 1, 5),
+        (Tier::Thorough, _) => (2, 5, 1, 5),
     };
     (
         TreeGen { k, preds: preds_n, terms: terms_nm, max_depth: fd, max_nodes: fn_, partial: true },
@@ -85,8 +85,8 @@ pub fn cases(tier: Tier) -> Vec<Case> {
                 (Tier::Thorough, 2) => (7, 7),
                 (Tier::Thorough, _) => (9, 9),
             };
-            let fs = thin(gf.all(), ef);
-            let gs = thin(gg.all(), eg);
+            let fs: Vec<std::sync::Arc<TSpec>> = thin(gf.all(), ef).into_iter().map(std::sync::Arc::new).collect();
+            let gs: Vec<std::sync::Arc<TSpec>> = thin(gg.all(), eg).into_iter().map(std::sync::Arc::new).collect();
             for (i, f) in fs.iter().enumerate() {
                 for (j, g) in gs.iter().enumerate() {
                     out.push(Case::Compose { k, f: f.clone(), g: g.clone(), layout: ((i + j) % 4) as u8 });
@@ -195,7 +195,7 @@ pub fn run(tier: Tier) -> Report {
     rep.absorb(total);
     rep.set("bound", match tier {
         Tier::Quick => "pairs (f,g): K=2 depth<=2 nodes<=5 (all trees with <=3 nodes, every 9th larger one), K=4 depth<=1 nodes<=4; dims (1,1,1),(2,2,1),(2,1,2),(1,2,1); apply_func for every terminal map",
-        Tier::Thorough => "pairs (f,g): K=2 depth<=2 nodes<=7 (every 7th larger one), K=4 nodes<=6; six dimension triples",
+        Tier::Thorough => "pairs (f,g): K=2 depth<=2 nodes<=7 (every 7th larger one), K=4 nodes<=5; six dimension triples",
     });
     rep.assume("operands are read through the public arena API; reading bound to real evaluate/find_terminal by conformance calls");
     rep.assume("exact rational arithmetic; all constants dyadic so the stored f64 tree is the exact tree");
